@@ -111,7 +111,7 @@ def run_property(prop_id, tier="quick", seed=0, only=None, jobs=None, keep_going
             cut = [f for f in failed if ".unwind." in f["name"]]
             failed = [f for f in failed if ".unwind." not in f["name"]]
             if cut and not failed:
-                verdict["undecided"].append("%s: loop without a loop contract in %s (the code gained a loop); unwound 3 times, nothing failed in that prefix, the rest is not decided" % (proof.name, ", ".join(out["loops_without_contract"])))
+                verdict["undecided"].append("%s: loop without a loop contract in %s (the code gained a loop); unwound 64 times, nothing failed in that prefix, the rest is not decided" % (proof.name, ", ".join(out["loops_without_contract"])))
         for f in failed:
             verdict["violations"].append({"proof": proof.name, "obligation": f["name"], "description": f["description"],
                                           "file": f["file"], "line": f["line"], "level": proof.level,
